@@ -7,6 +7,7 @@ from spverif.core.util import attempt, exc_sig
 from spverif.ref import cds as R
 
 SCRIBBLE = True
+THOROUGH_SCALE = 8
 ID = "C14"
 LEVEL = "exploration"
 SHARDS = {"quick": 1, "thorough": 16}
